@@ -186,22 +186,35 @@ def node_paths(tree) -> Dict[Any, str]:
     return out
 
 
-def fam_name(f: int) -> str:
-    """gene families are strings in the package (GeneFamily = str)"""
+# gene families are strings in the package (GeneFamily = str); scheme 1 uses names of different lengths whose
+# concatenations collide ("ab"+"c" = "a"+"b"+"c"), scheme 2 names that differ by case / look like numbers
+_FAM_NAMES = {
+    1: ["", "a", "b", "ab", "c", "bc", "abc", "d", "cd", "e", "de"],
+    2: ["", "g", "G", "1", "11", "g1", "G1", "_", "g_", "0", "10"],
+}
+
+
+def fam_name(f: int, scheme: int = 0) -> str:
+    if scheme and f < len(_FAM_NAMES[scheme]):
+        return _FAM_NAMES[scheme][f]
     return f"f{f:02d}"
 
 
-def fam_id(name: str) -> int:
+def fam_id(name: str, scheme: int = 0) -> int:
+    if scheme and name in _FAM_NAMES[scheme]:
+        return _FAM_NAMES[scheme].index(name)
     return int(name[1:])
 
 
 class Built:
     """An implementation input built from a JSON-able case."""
 
-    def __init__(self, S, O, costs: dict, labelled: bool = False, unordered: bool = False, blank_internal: bool = False):
+    def __init__(self, S, O, costs: dict, labelled: bool = False, unordered: bool = False, blank_internal: bool = False,
+                 dist_seed: Optional[int] = None, fam_scheme: int = 0):
         from superrec2.model.reconciliation import ReconciliationInput, SuperReconciliationInput
         from superrec2.utils.trees import LowestCommonAncestor
         self.S, self.O, self.costs = S, O, costs
+        self.fam_scheme = fam_scheme
         self.stree = build_tree(S, "", "S")
         self.spath = node_paths(self.stree)
         self.snode = {p: n for n, p in self.spath.items()}
@@ -209,7 +222,7 @@ class Built:
 
         def cb(node, prefix, leaf):
             leafmap[node] = self.snode[leaf["sp"]]
-            names = [fam_name(f) for f in leaf.get("syn", [])]
+            names = [fam_name(f, fam_scheme) for f in leaf.get("syn", [])]
             syn[node] = (set(names) if unordered else names)
         self.otree = build_tree(O, "", "O", cb)
         if blank_internal:
@@ -218,6 +231,14 @@ class Built:
                 for n in t.traverse():
                     if not n.is_leaf():
                         n.name = ""
+        if dist_seed is not None:
+            # branch lengths (and supports) are legal decorations of the trees and mean nothing to reconciliation
+            import random as _random
+            rr = _random.Random(dist_seed)
+            for t in (self.stree, self.otree):
+                for n in t.traverse():
+                    n.dist = rr.choice([0.0, 0.12, 0.31, 0.5, 2.0, 3.7, 10.0])
+                    n.support = rr.choice([0.0, 0.5, 1.0, 100.0])
         self.opath = node_paths(self.otree)
         self.onode = {p: n for n, p in self.opath.items()}
         self.lca = LowestCommonAncestor(self.stree)
@@ -238,7 +259,7 @@ class Built:
             sp = out.object_species[n]
             s = by_id[sp] if sp in by_id else spath[sp.name]
             if labelled:
-                y = [fam_id(f) for f in out.syntenies[n]]
+                y = [fam_id(f, self.fam_scheme) for f in out.syntenies[n]]
                 y = sorted(y) if not out.ordered else list(y)
                 if n.is_leaf():
                     return [s, y]
@@ -260,7 +281,7 @@ class Built:
                 return
             mapping[n] = self.snode[r[0]]
             if labelled:
-                syn[n] = [fam_name(f) for f in r[1]] if ordered else {fam_name(f) for f in r[1]}
+                syn[n] = [fam_name(f, self.fam_scheme) for f in r[1]] if ordered else {fam_name(f, self.fam_scheme) for f in r[1]}
                 if len(r) == 4:
                     go(r[2], p + "0"); go(r[3], p + "1")
             else:
@@ -269,6 +290,49 @@ class Built:
         if labelled:
             return SuperReconciliationOutput(self.input, mapping, syn, ordered)
         return ReconciliationOutput(self.input, mapping)
+
+
+def case_of_output(out, fam_code=None):
+    """An output of the package (with its OWN, binary, input: e.g. one refinement of a polytomous input) in the
+    case format: (S shape, O with leaf species paths and syntenies, solution).  Families are numbered by
+    `fam_code` (default: position in the sorted list of the family names on the leaves)."""
+    inp = out.input
+    st, ot = inp.species_lca.tree, inp.object_tree
+    spath = node_paths(st)
+    labelled = hasattr(out, "syntenies")
+    if labelled and fam_code is None:
+        names = sorted({f for n in ot.iter_leaves() for f in inp.leaf_syntenies[n]})
+        fam_code = {f: i + 1 for i, f in enumerate(names)}
+
+    def sshape(n):
+        if n.is_leaf():
+            return 0
+        if len(n.children) != 2:
+            raise ValueError("species tree of an output is not binary")
+        return [sshape(n.children[0]), sshape(n.children[1])]
+
+    def syn_of(y, ordered):
+        y = [fam_code[f] for f in y]
+        return list(y) if ordered else sorted(y)
+
+    def oshape(n):
+        if n.is_leaf():
+            d = {"sp": spath[inp.leaf_object_species[n]], "syn": []}
+            if labelled:
+                d["syn"] = syn_of(inp.leaf_syntenies[n], out.ordered)
+            return d
+        if len(n.children) != 2:
+            raise ValueError("object tree of an output is not binary")
+        return [oshape(n.children[0]), oshape(n.children[1])]
+
+    def sol(n):
+        s = spath[out.object_species[n]]
+        if labelled:
+            y = syn_of(out.syntenies[n], out.ordered)
+            return [s, y] if n.is_leaf() else [s, y, sol(n.children[0]), sol(n.children[1])]
+        return s if n.is_leaf() else [s, sol(n.children[0]), sol(n.children[1])]
+
+    return {"S": sshape(st), "O": oshape(ot)}, sol(ot)
 
 
 def prime_topology(B, solve):
@@ -301,6 +365,9 @@ def primed(case, solve, **kw):
     is first built and solved with THOSE costs, then its cost dictionary is edited in place to the case's
     own costs (the way the package's tests reuse an input); what the package remembers from the first
     solve must not leak into the run that is observed."""
+    kw.setdefault("blank_internal", bool(case.get("blank", False)))
+    kw.setdefault("dist_seed", case.get("dist"))
+    kw.setdefault("fam_scheme", case.get("fnames", 0))
     if case.get("prime") == "topology":
         B = Built(case["S"], case["O"], case["costs"], **kw)
         prime_topology(B, solve)
